@@ -428,7 +428,8 @@ def d10_checker_readonly(db, rep):
             if lhs is None:
                 continue
             ap = access_path(strip_casts(lhs)) or unparse(lhs)
-            if root_var(lhs) in pp and ("->" in ap or "[" in ap):
+            rv = root_var(lhs)
+            if rv is not None and rv.name in pp and ("->" in ap or "[" in ap):
                 bad = (x, ap)
                 break
         rep.check(bad is None, "D10-CHECKER-READONLY", where(f), f.name,
